@@ -1,3 +1,3 @@
 From Coq Require Import ExtrOcamlBasic NArith ZArith List.
 From LV Require Import lib.Conv lib.Bytes lib.SortedMap spec.KvSpec model.KvWrappers.
-Extraction "model.ml" conv_roots xrun x_init kv_write kv_apply has_prefix.
+Extraction "model.ml" conv_roots xrun x_init kv_write kv_apply kv_get kv_has kv_iterate has_prefix.
